@@ -93,6 +93,13 @@ def evaluate(res: Result, bases: list, rng: random.Random, full: bool = False):
         if full or rng.random() < 0.5:
             u['Reservoir Temperature'] = p['Reservoir Temperature'] * 9 / 5 + 32
             units['Reservoir Temperature'] = 'degF'
+        if full or rng.random() < 0.5:
+            if rng.random() < 0.5:
+                u['Rejection Temperature'] = p['Rejection Temperature'] * 9 / 5 + 32
+                units['Rejection Temperature'] = 'degF'
+            else:
+                u['Rejection Temperature'] = p['Rejection Temperature'] + 273.15
+                units['Rejection Temperature'] = 'degK'
         if 'Reservoir Depth' in p and (full or rng.random() < 0.6):
             u['Reservoir Depth'] = p['Reservoir Depth'] * 1000
             units['Reservoir Depth'] = 'm'
